@@ -317,7 +317,7 @@ corr:
 
 // Alphabet: one or more texts per serialization class; every ordered pair is forced adjacent.
 var Alphabet = []string{
-	"a", "-a", "--a", "e", "E3", "\\31 a", "\\-", "é", "a\\ b", "url", "f(x)", "url(x)", "url( 'q' )", "url()", "url(a\\1 b)", "u(", "(x)", "[x]", "{x}",
+	"a", "-a", "--a", "--", "u", "e", "E3", "\\31 a", "\\-", "é", "a\\ b", "url", "f(x)", "url(x)", "url( 'q' )", "url()", "url(a\\1 b)", "u(", "(x)", "[x]", "{x}",
 	"1", "+1", "-1", "1.5", ".5", "1e3", "1E-2", "5%", "-5%", "1px", "1e", "1E", "1e-x", "1\\45 3", "1\\65 3", "1--x", "1\\31 ",
 	"#a", "#1", "#-", "#-a", "#--", "@a", "@-a", "@--", "\"s\"", "'t'", "\"a\\\"b\\a c\"", "U+1", "U+1-2", "U+1??", "u+a",
 	"!", "#", "$", "%", "&", "*", "+", ",", "-", ".", "/", ":", ";", "<", "=", ">", "?", "@", "^", "|", "~", "~=", "|=", "^=", "$=", "*=", "||", "<!--", "-->", "\\\n",
@@ -372,12 +372,18 @@ func Run(tier string, seed uint64, modelPath, repo string, out *res.Result) erro
 	if tier == "thorough" {
 		nGen, nMut = 500000, 300000
 	}
-	out.Rule = "inputs: every ordered pair of an 87-text token alphabet forced adjacent (a/**/b tokenized with skipComments, and ab), value lists / declaration lists / " +
+	out.Rule = "inputs: the corpus of repaired defects (/verif/corpus/C20) first, every ordered pair of an 89-text token alphabet forced adjacent (a/**/b tokenized with skipComments, and ab), value lists / declaration lists / " +
 		"stylesheets from the C06 grammar generator in error-free mode (identifiers, strings, urls with escapes, control characters, quotes, newlines, non-ASCII) and " +
 		"rune-level mutations of them, the css-parsing-tests inputs; inputs whose tokens contain a parse error are skipped (counted); non-trivial = at least two " +
 		"non-comment top-level tokens or one block/function; distinct by skipComments flag + text"
 	if err := rn.corpus(); err != nil {
 		return err
+	}
+	// the minimal inputs of the findings that were deliberately not repaired (re-observed every run)
+	for _, css := range []string{"u/**/+/**/a", "U/**/+/**/?", "</**/!/**/--x", "--/**/>", " /**/ "} {
+		if err := rn.one(css, true, "unrepaired", 0); err != nil {
+			return err
+		}
 	}
 	for _, a := range Alphabet {
 		for _, b := range Alphabet {
